@@ -33,13 +33,13 @@ def cases(tier, seed, args):
             out.append(dict(t='gain_mm', kind=kind, L=[int(rng.integers(2, 4))] * nlead, K=int(rng.integers(2, 4)),
                             D=int(rng.integers(2, 5)), N=int(rng.integers(12, 28)), wca=wcas[int(rng.integers(len(wcas)))],
                             iterations=int(rng.integers(1, 5)), seed=int(rng.integers(1 << 30)),
-                            decades=int(rng.choice([100, 30, 150 if not q else 100])), predict=bool(i % 2),
+                            decades=int([100, 30, 0, 150 if not q else 100][(i // 7) % 4]), predict=bool(i % 2),
                             reuse=bool(i % 3 == 0), dim_given=bool(i % 5 == 0), saliency=bool(i % 4 == 1)))
         for i in range(24 if q else 200):
             out.append(dict(t='gain_dist', dist=['cacg', 'watson', 'bingham', 'vmf'][i % 4], fn=['log_pdf', 'fit'][(i // 4) % 2],
                             L=[int(rng.integers(1, 3))] * int(rng.integers(0, 2)), K=int(rng.integers(2, 4)),
                             D=int(rng.integers(2, 5)), N=int(rng.integers(8, 20)), seed=int(rng.integers(1 << 30)),
-                            decades=int(rng.choice([100, 20]))))
+                            decades=int([100, 20, 0][(i // 8) % 3])))
     if prop == 'C05':
         for i in range(42 if q else 420):
             kind = ml.KINDS[i % 7]
@@ -52,6 +52,17 @@ def cases(tier, seed, args):
                             sam=bool(kind == 'cacgmm' and i % 2), saliency=bool(i % 4 == 1),
                             regime=['regular', 'separable', 'badscale'][i % 3]))
     if prop == 'C05':
+        # nearly (not exactly) tied classes in the initial affiliation; integration models with the built-in alignment, K = 4
+        for i in range(6 if q else 40):
+            kind = ['cbmm', 'cacgmm', 'cwmm'][i % 3]
+            out.append(dict(t='perm_mm', kind=kind, L=[2] if i % 2 else [], K=3, D=int(rng.integers(2, 4)), N=int(rng.integers(60, 90)),
+                            wca=(-1,), iterations=[2, 3][i % 2], seed=int(rng.integers(1 << 30)), sam=False, saliency=False,
+                            regime='neartie'))
+        for i in range(4 if q else 24):
+            kind = ['gcacgmm', 'vmfcacgmm'][i % 2]
+            out.append(dict(t='perm_mm', kind=kind, L=[2], K=4, D=int(rng.integers(4, 6)), N=int(rng.integers(24, 36)),
+                            wca=(-1,), iterations=[2, 3][(i // 2) % 2], seed=int(rng.integers(1 << 30)), sam=False, saliency=False,
+                            regime='regular', inline_pa=True))
         for i in range(4 if q else 24):
             out.append(dict(t='perm_mm', kind='gmm', L=[], K=2, D=2 + i % 2, N=60, wca=(-1,), iterations=[3, 5][i % 2],
                             seed=int(rng.integers(1 << 30)), sam=False, saliency=False, regime='badscale'))
@@ -82,6 +93,10 @@ def cases(tier, seed, args):
 
 # ---------------------------------------------------------------------------
 def _gains(rng, shape, decades, real_positive=False):
+    if decades == 0:
+        # gains within 1e-5 of one (an 'already normalised' shortcut must not exist)
+        mag = 1.0 + 9e-6 * rng.uniform(-1, 1, size=shape)
+        return mag if real_positive else mag * np.exp(2j * np.pi * rng.random(shape))
     mag = 10.0 ** rng.uniform(-decades, decades, size=shape)
     if real_positive:
         return mag
@@ -107,6 +122,8 @@ def _gain_mm(case):
     real = kind in ('gmm', 'vmfmm')
     if kind == 'gmm':
         return []
+    if case['decades'] == 0:
+        data['y'] = ml.unit(data['y'])          # unit-norm observations: c*y stays within 1e-5 of the unit sphere
     c = _gains(rng, (*L, N, 1), case['decades'], real_positive=real)
     data_b = dict(data)
     data_b['y'] = data['y'] * c
@@ -129,14 +146,20 @@ def _gain_mm(case):
     pb, e2 = call(ml.predict, kind, mb, data_b)
     A = ml.model_fields(kind, ma, posterior=pa)
     B = ml.model_fields(kind, mb, posterior=pb)
+    rawA = ml.model_arrays(kind, ma, posterior=pa)
+    rawB = ml.model_arrays(kind, mb, posterior=pb)
     if kind == 'cacgmm':
         la, e3 = call(ma.log_likelihood, data['y'])
         lb, e4 = call(mb.log_likelihood, data_b['y'])
         if la is not None and lb is not None:
             A.append(ml._field('log_likelihood', np.asarray(la).reshape(1)))
             B.append(ml._field('log_likelihood', np.asarray(lb).reshape(1)))
+            rawA.append(np.asarray(la).reshape(1))
+            rawB.append(np.asarray(lb).reshape(1))
+    # fine residual bound: 2^-22 (2.4e-7) of |a|+|b|+floor; the Bingham solver is only reproducible to ~1e-3
     return [ml.twin_record('same', A, B, kind=kind, wca=case['wca'], exc=e1 or e2, fp=fp, key=key,
-                           slack=2048 if kind == 'cbmm' else 256)]
+                           slack=2048 if kind == 'cbmm' else 256, fine=-8 if kind == 'cbmm' else -22,
+                           raw=None if (pa is None or pb is None) else (rawA, rawB))]
 
 
 def _dist(dist, rng, L, K, D):
@@ -164,6 +187,8 @@ def _gain_dist(case):
     dist, L, K, D, N = case['dist'], case['L'], case['K'], case['D'], case['N']
     real = dist == 'vmf'
     y = rng.normal(size=(*L, N, D)) if real else rng.normal(size=(*L, N, D)) + 1j * rng.normal(size=(*L, N, D))
+    if case['decades'] == 0:
+        y = ml.unit(y)
     c = _gains(rng, (*L, N, 1), case['decades'], real_positive=real)
     fp = f't=gain_dist;dist={dist};fn={case["fn"]}'
     key = f'gaind:{case["seed"]}'
@@ -176,7 +201,8 @@ def _gain_dist(case):
         # differences of the log-density between classes (class 0 as reference)
         A = [ml._field('log_pdf', la - la[..., :1, :])]
         B = [ml._field('log_pdf', lb - lb[..., :1, :])]
-        return [ml.twin_record('same', A, B, kind=dist, fp=fp, key=key)]
+        return [ml.twin_record('same', A, B, kind=dist, fp=fp, key=key, fine=-22,
+                               raw=([la - la[..., :1, :]], [lb - lb[..., :1, :]]))]
     tr = dict(cacg=ComplexAngularCentralGaussianTrainer, watson=ComplexWatsonTrainer, bingham=ComplexBinghamTrainer,
               vmf=VonMisesFisherTrainer)[dist]
     if dist == 'cacg' and L:
@@ -186,7 +212,8 @@ def _gain_dist(case):
     mb, e2 = call(tr().fit, y * c)
     if ma is None or mb is None:
         return [ml.twin_record('same', None, None, kind=dist, exc=e1 or e2, fp=fp, key=key)]
-    return [ml.twin_record('same', ml.dist_fields(ma), ml.dist_fields(mb), kind=dist, fp=fp, key=key)]
+    return [ml.twin_record('same', ml.dist_fields(ma), ml.dist_fields(mb), kind=dist, fp=fp, key=key,
+                           fine=-8 if dist == 'bingham' else -22, raw=(ml.dist_arrays(ma), ml.dist_arrays(mb)))]
 
 
 def _perm_mm(case):
@@ -203,7 +230,13 @@ def _perm_mm(case):
     if regime == 'badscale' and kind == 'gmm':
         init = 0.9 * np.moveaxis(np.eye(K)[lab], -1, -2) + 0.1 / K
         init = init / init.sum(-2, keepdims=True)
+    if regime == 'neartie':
+        init = ml.make_init(rng, L, K, N)
+        init[..., 1, :] = init[..., 0, :] * (1 + 1e-3 * rng.uniform(-1, 1, size=init[..., 0, :].shape))
+        init = init / init.sum(-2, keepdims=True)
     opts = _opts(case, rng, L, N, kind)
+    if case.get('inline_pa'):
+        opts['inline_permutation_alignment'] = True
     sam = None
     if case.get('sam'):
         sam = rng.random((*L, K, N)) < 0.8
@@ -217,7 +250,7 @@ def _perm_mm(case):
     if sam is not None:
         opts_b['source_activity_mask'] = np.ascontiguousarray(sam[..., pi, :])
     mb, eb = call(ml.fit, kind, data, np.ascontiguousarray(init[..., pi, :]), case['iterations'], opts_b)
-    fp = f't=perm_mm;model={kind};wca={case["wca"]};it={case["iterations"]};sam={case.get("sam")};regime={regime}'
+    fp = f't=perm_mm;model={kind};wca={case["wca"]};it={case["iterations"]};sam={case.get("sam")};regime={regime};inline_pa={bool(case.get("inline_pa"))}'
     key = f'perm:{case["seed"]}'
     if ma is None or mb is None:
         # a failure of only ONE of the two runs is label dependent behaviour
@@ -228,8 +261,9 @@ def _perm_mm(case):
     pb, e2 = call(ml.predict, kind, mb, data)
     A = ml.model_fields(kind, ma, posterior=pa)
     B = ml.model_fields(kind, mb, posterior=pb)
+    raw = None if (pa is None or pb is None) else (ml.model_arrays(kind, ma, posterior=pa), ml.model_arrays(kind, mb, posterior=pb))
     return [ml.twin_record('perm', A, B, kind=kind, wca=case['wca'], pi=pi, exc=e1 or e2, fp=fp, key=key,
-                           slack=2048 if kind == 'cbmm' else 256)]
+                           slack=2048 if kind == 'cbmm' else 256, fine=-18 if kind == 'cbmm' else -20, raw=raw)]
 
 
 def _stack_mm(case):
